@@ -76,6 +76,40 @@ def gen_field(rng: random.Random, name: str, want_default: bool, plain_only: boo
     return (f"{name}: {cv} = 9" if rng.random() < 0.7 else f"{name}: {cv}"), False, False
 
 
+# a second statement binding (or unbinding) the name of a field, after its declaration ...
+REBIND_AFTER = ["declare", "declare", "declare", "declare", "assign", "assign", "assign", "assign_field", "chain", "tuple", "augment",
+                "bare", "def", "property", "class", "del"]
+# ... or before it
+REBIND_BEFORE = ["assign", "assign", "def", "property", "class"]
+
+
+def rebinding(rng: random.Random, name: str, form: str, idx: int) -> str:
+    if form == "declare":       # a second annotated declaration, of any field form
+        return gen_field(rng, name, rng.random() < 0.7)[0]
+    if form == "bare":
+        return f"{name}: {rng.choice(['int', 'str', 'InitVar[int]'])}"
+    return {"assign": f"{name} = {rng.choice(['5', 'None'])}",
+            "assign_field": f"{name} = {field_call(rng, {'default': '6'})}",
+            "chain": f"{name} = w{idx} = 0",
+            "tuple": f"w{idx}, {name} = 5, 6",
+            "augment": f"{name} += 1",
+            "def": f"def {name}(self): ...",
+            "property": f"@property\ndef {name}(self):\n    return 1",
+            "class": f"class {name}: ...",
+            "del": f"del {name}"}[form]
+
+
+def rebind_one(rng: random.Random, body: list[str], names: list[str], idx: int) -> None:
+    """Bind the name of one declared field a second time, anywhere after (75%) or before its declaration: the statements may end
+    up on either side of a KW_ONLY marker and of the other fields."""
+    name = rng.choice(names)
+    at = next(i for i, ln in enumerate(body) if ln.startswith(f"{name}:"))
+    if rng.random() < 0.75:
+        body.insert(rng.randint(at + 1, len(body)), rebinding(rng, name, rng.choice(REBIND_AFTER), idx))
+    else:
+        body.insert(rng.randint(0, at), rebinding(rng, name, rng.choice(REBIND_BEFORE), idx))
+
+
 def gen_class(rng: random.Random, idx: int, bases: list[str], mode: str, init, kw_only, frozen,  # noqa: ANN001
               inherited_default: bool, inherited_names: list[str]) -> tuple[list[str], bool, list[str]]:
     """Lines of one class statement.  mode: dataclass / plain / handinit."""
@@ -106,6 +140,10 @@ def gen_class(rng: random.Random, idx: int, bases: list[str], mode: str, init, k
                 seen_default = True
         if marker_at == len(names):
             body.append("_: KW_ONLY")
+        if own_names and mode != "plain" and rng.random() < 0.3:
+            rebind_one(rng, body, own_names, idx)
+            if rng.random() < 0.15:
+                rebind_one(rng, body, own_names, idx)
     extras = []
     if rng.random() < 0.25:
         extras.append("@property\ndef p(self) -> int:\n    return 1")
